@@ -44,7 +44,8 @@ Node *cg_child[CG_NCHILD];       /* abstract children of the node under proof */
 uint64_t cg_val[CG_NCHILD + 1];  /* their values (canonical in their type; floats as bit patterns); [CG_NCHILD] = root */
 int cg_child_at[CG_NCHILD];      /* event sequence number at which each child was evaluated (-1: never) */
 Node *cg_root;
-int cg_depth_base;               /* m.sp == depth + cg_depth_base */
+int cg_depth_base;
+_Bool cg_check_val;            /* the root's value is specified (false for balance-only jobs) */               /* m.sp == depth + cg_depth_base */
 
 static inline int cg_idx(Node *n) { return n == cg_child[0] ? 0 : n == cg_child[1] ? 1 : n == cg_child[2] ? 2 : n == cg_child[3] ? 3 : CG_NCHILD; }
 uint64_t verif_val(Node *n) { return cg_val[cg_idx(n)]; }
@@ -66,7 +67,8 @@ static inline _Bool cg_holds(Type *ty, uint64_t v) {
 }
 static inline int cg_x87_delta(Type *ty) { return ty->kind == TY_LDOUBLE ? 1 : 0; }
 
-#define CG_STK_KEEP(i) __CPROVER_ensures(__CPROVER_old(m.skip) || (i) >= __CPROVER_old(m.sp) || gm_stk[i] == __CPROVER_old(gm_stk[i]))
+#define CG_INACTIVE (__CPROVER_old(m.skip) || __CPROVER_old(m.halt))
+#define CG_STK_KEEP(i) __CPROVER_ensures(CG_INACTIVE || (i) >= __CPROVER_old(m.sp) || gm_stk[i] == __CPROVER_old(gm_stk[i]))
 
 // Contract of gen_expr: one value, balanced stack, nothing below the entry stack pointer touched; children are
 // side-effect free on data memory (only the node under proof may write it).
@@ -74,32 +76,62 @@ static void gen_expr(Node *node)
 __CPROVER_requires(node != 0 && node->ty != 0 && node->tok != 0 && node->tok->file != 0)
 __CPROVER_requires(!m.unknown && !m.bad && 0 <= m.sp && m.sp <= GM_STK - 6 && m.sp == depth + cg_depth_base)
 __CPROVER_requires(0 <= m.x87 && m.x87 <= 6 && 0 <= m.nev && m.nev < GM_EVENTS)
-__CPROVER_assigns(!m.skip: m, depth, gm_rz, __CPROVER_object_whole(gm_stk), __CPROVER_object_whole(gm_ev), gm_skip_len, __CPROVER_object_whole(gm_skip_text))
-__CPROVER_assigns(!m.skip && node == cg_root: __CPROVER_object_whole(gm_dm), __CPROVER_object_whole(cg_child_at))
-__CPROVER_assigns(!m.skip && node == cg_child[0]: cg_child_at[0]; !m.skip && node == cg_child[1]: cg_child_at[1]; !m.skip && node == cg_child[2]: cg_child_at[2]; !m.skip && node == cg_child[3]: cg_child_at[3])
+__CPROVER_assigns(!m.skip && !m.halt: m, depth, gm_rz, __CPROVER_object_whole(gm_stk), gm_skip_len, __CPROVER_object_whole(gm_skip_text))
+__CPROVER_assigns(!m.skip && !m.halt && node == cg_root: __CPROVER_object_whole(gm_dm), __CPROVER_object_whole(cg_child_at), __CPROVER_object_whole(gm_ev), __CPROVER_object_whole(gm_lab))
+__CPROVER_assigns(!m.skip && !m.halt && node == cg_child[0]: cg_child_at[0]; !m.skip && !m.halt && node == cg_child[1]: cg_child_at[1]; !m.skip && !m.halt && node == cg_child[2]: cg_child_at[2]; !m.skip && !m.halt && node == cg_child[3]: cg_child_at[3])
 __CPROVER_ensures(!m.unknown && !m.bad)
-__CPROVER_ensures(m.skip == __CPROVER_old(m.skip))
+__CPROVER_ensures(node == cg_root || (m.skip == __CPROVER_old(m.skip) && m.halt == __CPROVER_old(m.halt) && m.nlab == __CPROVER_old(m.nlab)))
 __CPROVER_ensures(m.sp == __CPROVER_old(m.sp) && depth == __CPROVER_old(depth))
-__CPROVER_ensures(__CPROVER_old(m.skip) || m.x87 == __CPROVER_old(m.x87) + cg_x87_delta(node->ty))
-__CPROVER_ensures(__CPROVER_old(m.skip) || cg_holds(node->ty, verif_val(node)))
-__CPROVER_ensures(__CPROVER_old(m.skip) || node == cg_root || (m.nev == __CPROVER_old(m.nev) + 1 && cg_child_at[cg_idx(node)] == __CPROVER_old(m.nev)))
-__CPROVER_ensures(__CPROVER_old(m.skip) || (m.cw_trunc == __CPROVER_old(m.cw_trunc) && m.locked_writes == __CPROVER_old(m.locked_writes) && m.plain_writes_dm >= __CPROVER_old(m.plain_writes_dm)))
+__CPROVER_ensures(CG_INACTIVE || m.x87 == __CPROVER_old(m.x87) + cg_x87_delta(node->ty))
+__CPROVER_ensures(CG_INACTIVE || (node == cg_root && !cg_check_val) || m.skip || m.halt || cg_holds(node->ty, verif_val(node)))
+__CPROVER_ensures(CG_INACTIVE || node == cg_root || (m.nev == __CPROVER_old(m.nev) + 1 && cg_child_at[cg_idx(node)] == __CPROVER_old(m.nev)))
+__CPROVER_ensures(CG_INACTIVE || (m.cw_trunc == __CPROVER_old(m.cw_trunc) && m.locked_writes == __CPROVER_old(m.locked_writes) && (node == cg_root ? m.plain_writes_dm >= __CPROVER_old(m.plain_writes_dm) : m.plain_writes_dm == __CPROVER_old(m.plain_writes_dm))))
 CG_STK_KEEP(0) CG_STK_KEEP(1) CG_STK_KEEP(2) CG_STK_KEEP(3) CG_STK_KEEP(4) CG_STK_KEEP(5) CG_STK_KEEP(6) CG_STK_KEEP(7)
 CG_STK_KEEP(8) CG_STK_KEEP(9) CG_STK_KEEP(10) CG_STK_KEEP(11) CG_STK_KEEP(12) CG_STK_KEEP(13) CG_STK_KEEP(14) CG_STK_KEEP(15)
 ;
 
+// Contract of gen_stmt: a statement leaves no value and no residue; it may end with a jump pending to a label outside
+// itself (break/continue/goto/return), in which case the machine is skipping when it returns.
+static void gen_stmt(Node *node)
+__CPROVER_requires(node != 0 && node->tok != 0 && node->tok->file != 0)
+__CPROVER_requires(!m.unknown && !m.bad && 0 <= m.sp && m.sp <= GM_STK - 6 && m.sp == depth + cg_depth_base)
+__CPROVER_requires(0 <= m.x87 && m.x87 <= 6 && 0 <= m.nev && m.nev < GM_EVENTS)
+__CPROVER_assigns(!m.skip && !m.halt: m, depth, gm_rz, __CPROVER_object_whole(gm_stk), gm_skip_len, __CPROVER_object_whole(gm_skip_text))
+__CPROVER_assigns(!m.skip && !m.halt && node == cg_root: __CPROVER_object_whole(gm_dm), __CPROVER_object_whole(cg_child_at), __CPROVER_object_whole(gm_ev), __CPROVER_object_whole(gm_lab))
+__CPROVER_assigns(!m.skip && !m.halt && node == cg_child[0]: cg_child_at[0]; !m.skip && !m.halt && node == cg_child[1]: cg_child_at[1]; !m.skip && !m.halt && node == cg_child[2]: cg_child_at[2]; !m.skip && !m.halt && node == cg_child[3]: cg_child_at[3])
+__CPROVER_ensures(!m.unknown && !m.bad)
+__CPROVER_ensures(node == cg_root || (m.skip == __CPROVER_old(m.skip) && m.halt == __CPROVER_old(m.halt) && m.nlab == __CPROVER_old(m.nlab)))
+__CPROVER_ensures(m.sp == __CPROVER_old(m.sp) && depth == __CPROVER_old(depth))
+__CPROVER_ensures(m.x87 == __CPROVER_old(m.x87))
+__CPROVER_ensures(CG_INACTIVE || node == cg_root || (m.nev == __CPROVER_old(m.nev) + 1 && cg_child_at[cg_idx(node)] == __CPROVER_old(m.nev)))
+__CPROVER_ensures(CG_INACTIVE || (m.cw_trunc == __CPROVER_old(m.cw_trunc) && m.locked_writes == __CPROVER_old(m.locked_writes) && (node == cg_root ? m.plain_writes_dm >= __CPROVER_old(m.plain_writes_dm) : m.plain_writes_dm == __CPROVER_old(m.plain_writes_dm))))
+CG_STK_KEEP(0) CG_STK_KEEP(1) CG_STK_KEEP(2) CG_STK_KEEP(3) CG_STK_KEEP(4) CG_STK_KEEP(5) CG_STK_KEEP(6) CG_STK_KEEP(7)
+CG_STK_KEEP(8) CG_STK_KEEP(9) CG_STK_KEEP(10) CG_STK_KEEP(11) CG_STK_KEEP(12) CG_STK_KEEP(13) CG_STK_KEEP(14) CG_STK_KEEP(15)
+;
+
+#ifndef CG_OWN_CALL_HOOK
+_Bool cg_call_ret_x87;   /* the callee returns a long double (in %st(0)) */
+void gm_call_hook(void) {
+  // callee may clobber every caller-saved register and the flags; callee-saved registers, rsp and the caller's stack survive
+  GM nd; m.r[RAX] = nd.r[RAX]; m.r[RCX] = nd.r[RCX]; m.r[RDX] = nd.r[RDX]; m.r[RSI] = nd.r[RSI]; m.r[RDI] = nd.r[RDI];
+  m.r[R8] = nd.r[R8]; m.r[R9] = nd.r[R9]; m.r[R10] = nd.r[R10]; m.r[R11] = nd.r[R11];
+  for (int i = 0; i < 8; i++) m.xmm[i] = nd.xmm[i];
+  m.flags_valid = 0;
+  if (cg_call_ret_x87) { if (m.x87 >= 8) m.bad = 1; else { m.st_int[m.x87] = 0; m.x87++; } }
+}
+#endif
 static File cg_file; static Token cg_tok;
 static inline void cg_node(Node *n, NodeKind k, Type *ty) { n->kind = k; n->ty = ty; n->tok = &cg_tok; }
 static inline void cg_init(void) {
   cg_types();
   cg_tok.file = &cg_file; cg_file.file_no = 1; cg_tok.line_no = 1;
   for (int i = 0; i < CG_NCHILD; i++) { cg_child_at[i] = -1; cg_child[i] = 0; cg_val[i] = 0; }
-  cg_val[CG_NCHILD] = 0; cg_root = 0;   /* DFCC leaves file-scope objects nondeterministic at harness entry */
+  cg_val[CG_NCHILD] = 0; cg_root = 0; cg_check_val = 1;   /* DFCC leaves file-scope objects nondeterministic at harness entry */
 }
 // arbitrary-but-consistent machine entry state: symbolic registers, sp0 occupied slots with symbolic contents
 #define CG_ENTRY_STATE(sp0_) do { \
   GM nd_m_; m = nd_m_; m.unknown = 0; m.bad = 0; m.skip = 0; m.nev = 0; m.x87 = 0; m.flags_valid = 0; m.locked_writes = 0; \
-  m.plain_writes_dm = 0; m.cw_trunc = 0; m.cw_saved = 0; m.rsp_adjust = 0; m.sp = (sp0_); depth = (sp0_); cg_depth_base = 0; \
+  m.plain_writes_dm = 0; m.halt = 0; m.nlab = 0; m.skip_ev = -1; m.bj_label = -1; m.bj_at = -1; m.cw_trunc = 0; m.cw_saved = 0; m.rsp_adjust = 0; m.sp = (sp0_); depth = (sp0_); cg_depth_base = 0; \
   m.st_int[0] = m.st_int[1] = m.st_int[2] = m.st_int[3] = m.st_int[4] = m.st_int[5] = m.st_int[6] = m.st_int[7] = 0; \
   } while (0)
 #endif
